@@ -263,3 +263,121 @@ func headStr(s []string, n int) []string {
 func TestC01(t *testing.T) {
 	checkProp(t, "C01", "main", genC01, execC01)
 }
+
+// ---- C01 repeat: the same few methods called again and again ----------------------------------
+//
+// TestC01 gives every call its own method so that handlers can be gated individually. Real callers invoke the same
+// method over and over on a long-lived connection; whatever the library keeps per method or per connection between
+// calls must not leak from one call into the next.
+
+type C01Repeat struct {
+	Topo    kit.Topo `json:"topo"`
+	Methods int      `json:"methods"` // 1..3 unary methods
+	Rounds  [][]int  `json:"rounds"`  // per round: the method index of each call; the calls of a round run concurrently
+	WithMD  bool     `json:"with_md"` // calls carry outgoing metadata
+	Timeout bool     `json:"timeout"` // calls carry a (long) deadline
+	Big     bool     `json:"big"`     // 2 KiB payloads instead of a few bytes
+}
+
+func genC01Repeat(t *rapid.T) C01Repeat {
+	c := C01Repeat{Topo: genTopo(t, 3), Methods: rapid.IntRange(1, 3).Draw(t, "methods"), WithMD: rapid.IntRange(0, 2).Draw(t, "md") == 0, Timeout: rapid.IntRange(0, 2).Draw(t, "timeout") == 0, Big: rapid.Bool().Draw(t, "big")}
+	nr := rapid.IntRange(2, 6).Draw(t, "rounds")
+	for r := 0; r < nr; r++ {
+		n := rapid.SampledFrom([]int{1, 1, 2, 4}).Draw(t, "n")
+		if c.Topo.Kind == "proxy" && n > 3 {
+			n = 3
+		}
+		var round []int
+		for i := 0; i < n; i++ {
+			round = append(round, rapid.IntRange(0, c.Methods-1).Draw(t, "m"))
+		}
+		c.Rounds = append(c.Rounds, round)
+	}
+	return c
+}
+
+func execC01Repeat(t *testing.T, c C01Repeat) (v Verdict) {
+	type call struct {
+		method int
+		client int
+		reply  []byte
+		err    error
+		done   bool
+	}
+	var calls []*call
+	var mu sync.Mutex
+	handled := map[int]int{} // call index -> handler runs
+	mkReq := func(idx int) []byte {
+		b := []byte{0xC1, byte(idx >> 8), byte(idx)}
+		if c.Big {
+			for len(b) < 2048 {
+				b = append(b, byte(idx))
+			}
+		}
+		return b
+	}
+	res := kit.Bubble(t, func() {
+		svc := kit.NewSvc()
+		for m := 0; m < c.Methods; m++ {
+			m := m
+			svc.Unary(fmt.Sprintf("r%d", m), func(ctx context.Context, req []byte) ([]byte, error) {
+				if len(req) >= 3 {
+					mu.Lock()
+					handled[int(req[1])<<8|int(req[2])]++
+					mu.Unlock()
+				}
+				return append([]byte{byte('A' + m)}, req...), nil
+			})
+		}
+		w := kit.NewWorld(c.Topo, svc, nil, nil)
+		for _, round := range c.Rounds {
+			var wg sync.WaitGroup
+			for i, m := range round {
+				cl := &call{method: m, client: i % c.Topo.Clients}
+				idx := len(calls)
+				calls = append(calls, cl)
+				wg.Add(1)
+				go func() {
+					defer wg.Done()
+					ctx := context.Background()
+					if c.WithMD {
+						ctx = metadataOutgoing(ctx, "call", fmt.Sprint(idx))
+					}
+					if c.Timeout {
+						var cancel context.CancelFunc
+						ctx, cancel = context.WithTimeout(ctx, time.Hour)
+						defer cancel()
+					}
+					cl.reply, cl.err = kit.Invoke(ctx, w.Conn(cl.client), fmt.Sprintf("r%d", cl.method), mkReq(idx))
+					cl.done = true
+				}()
+			}
+			wg.Wait()
+			kit.Settle()
+		}
+		w.Shutdown()
+		kit.Settle()
+	})
+	if res.Panic != nil {
+		v.failf("panic: %v\n%s", res.Panic, res.Stack)
+	}
+	for idx, cl := range calls {
+		want := append([]byte{byte('A' + cl.method)}, mkReq(idx)...)
+		switch {
+		case !cl.done:
+			v.failf("call %d (method r%d, the %d-th call on this connection set) never returned", idx, cl.method, idx+1)
+		case cl.err != nil:
+			v.failf("call %d (method r%d) failed: %v - earlier calls of the same methods on the same connections succeeded", idx, cl.method, cl.err)
+		case !bytes.Equal(cl.reply, want):
+			v.failf("call %d (method r%d) got a reply that is not its handler's reply to its request", idx, cl.method)
+		}
+		if handled[idx] != 1 {
+			v.failf("the handler ran %d times for call %d, want exactly once", handled[idx], idx)
+		}
+	}
+	v.Info = kit.CaseInfo{Labels: []string{"repeat", "repeat.topo=" + c.Topo.Kind, fmt.Sprintf("repeat.ser=%v", c.Topo.Serialize), fmt.Sprintf("repeat.plain_calls=%v", !c.WithMD && !c.Timeout)}, NonTrivial: len(calls) >= 3,
+		Key: fmt.Sprintf("%+v", c), Sample: map[string]any{"topo": c.Topo.String(), "methods": c.Methods, "calls": len(calls), "rounds": len(c.Rounds)}}
+	return
+}
+
+func TestC01Repeat(t *testing.T) { checkProp(t, "C01", "repeat", genC01Repeat, execC01Repeat) }
